@@ -8,6 +8,7 @@ CONSTANTS
   AvailSet <- A2to12
   IndSet = {0}
   AlignMode = 0
+  DupMode = FALSE
   Pool <- PoolMid
 INVARIANT TypeOK
 INVARIANT InvSucceeds
